@@ -360,6 +360,9 @@ pub mod verif_hooks {
         pub fn num_workers(&self) -> usize {
             self.0.workers.len()
         }
+        pub fn busy_counter(&self) -> Arc<RwLock<usize>> {
+            Arc::clone(&self.0.num_busy)
+        }
     }
 }
 
